@@ -7,7 +7,7 @@ pub fn module() -> PropModule {
     PropModule {
         coq_module: "Check_C09",
         runner: "Check_C09.run_C09",
-        generate: |r, t| actions::generate(r, t, 80),
+        generate: |r, t| actions::generate(r, t, 55),
         execute: |v: &Value| actions::execute(v, &[1, 2, 3, 4]),
         label: actions::label,
     }
